@@ -439,6 +439,12 @@ impl Story {
             }
         }
 
+        // A pointer past the end of its container (a host jump to an index that
+        // does not exist) has no content to add; the flow moves on from there.
+        if current_content_obj.is_none() {
+            should_add_to_stream = false;
+        }
+
         // Content to add to evaluation stack or the output stream
         if should_add_to_stream {
             // If we're pushing a variable pointer onto the evaluation stack,
